@@ -39,14 +39,161 @@ def triples_term(t):
     return ct.lst([ct.pair(ct.z(r), ct.z(c), ct.zi(v)) for r, c, v in t])
 
 
+# ----------------------------------------------------------------------------- object relations / parameter types
+# A JSON-able MODE every generator varies (recorded as desc["fmode"], re-installed by replay).  It fixes the dimensions
+# of an input that a spec (field sizes + (field index, site) pairs + numbers) does not say:
+#   "lat":    per field a group label; fields with the same label AND size are built on ONE lattice object
+#             (distinct Field objects sharing a lattice); default: every field has its own lattice object (fields of equal
+#             size then have equal-but-distinct lattices)
+#   "flavor": per field the kind of lattice ("int" 1-d open, "pbc", "2d", "full", "layer")
+#   "intern": True = one Qubit object per (field, site), shared by everything built from these fields;
+#             default: a fresh Qubit object at every mention (equal-but-distinct particles)
+#   "num":    type of the scalar / vector parameters handed to the constructors ("np64", "np32", "int", "tuple")
+FMODE = {}
+_INTERN = {}
+
+
+class field_mode:
+    def __init__(self, mode):
+        self.mode = dict(mode or {})
+
+    def __enter__(self):
+        global FMODE
+        self.noop = self.mode == FMODE         # nested use with the mode already installed
+        if not self.noop:
+            self.prev = FMODE
+            FMODE = self.mode
+            if not self.prev:
+                _INTERN.clear()
+        return self
+
+    def __exit__(self, *a):
+        global FMODE
+        if not self.noop:
+            FMODE = self.prev
+            if not self.prev:
+                _INTERN.clear()
+
+
+def ref_mode():
+    """the current mode, except that matrices handed to GeneralGate are plain C-ordered complex128 arrays: REFERENCE gates
+    are built under it, so that the reference does not depend on the memory layout the gate under test was given"""
+    return field_mode(dict(FMODE, ref=True))
+
+
+def ref_gate_matrix(spec, sizes):
+    with ref_mode():
+        return np.asarray(build_gate(spec, mk_fields(sizes)).as_matrix())
+
+
+def make_lattice(n, flavor):
+    import qib
+    L = qib.lattice
+    if flavor == "pbc":
+        return L.IntegerLattice((n,), pbc=True)
+    if flavor == "2d" and n >= 4 and n % 2 == 0:
+        return L.IntegerLattice((2, n // 2))
+    if flavor == "full":
+        return L.FullyConnectedLattice(n)
+    if flavor == "layer" and n % 2 == 0:
+        return L.LayeredLattice(L.IntegerLattice((n // 2,)), 2)
+    return L.IntegerLattice((n,))
+
+
 def mk_fields(sizes):
     import qib
-    return [qib.field.Field(qib.field.ParticleType.QUBIT, qib.lattice.IntegerLattice((n,))) for n in sizes]
+    lat, flavor = FMODE.get("lat"), FMODE.get("flavor")
+    lattices, out = {}, []
+    for i, n in enumerate(sizes):
+        key = (lat[i] if lat and i < len(lat) else ("own", i), n)
+        if key not in lattices:
+            lattices[key] = make_lattice(n, flavor[i] if flavor and i < len(flavor) else None)
+            assert lattices[key].nsites == n
+        out.append(qib.field.Field(qib.field.ParticleType.QUBIT, lattices[key]))
+    return out
+
+
+def fidx(F, f):
+    """position of the field OBJECT f in F (identity, never ==)"""
+    for i, x in enumerate(F):
+        if x is f:
+            return i
+    return -1
 
 
 def qubit(F, p):
     import qib
+    if FMODE.get("intern"):
+        key = (id(F[p[0]]), p[1])
+        if key not in _INTERN:
+            _INTERN[key] = (F[p[0]], qib.field.Qubit(F[p[0]], p[1]))     # the field is kept alive with its id
+        return _INTERN[key][1]
     return qib.field.Qubit(F[p[0]], p[1])
+
+
+def num(x):
+    """a scalar parameter in the type the mode asks for (same value)"""
+    m = FMODE.get("num")
+    if m == "np64":
+        return np.float64(x)
+    if m == "np32" and float(np.float32(x)) == float(x):
+        return np.float32(x)
+    if m == "int" and float(x).is_integer():
+        return int(x)
+    return x
+
+
+def numvec(v):
+    m = FMODE.get("num")
+    if m == "np64":
+        return np.array(v, dtype=np.float64)
+    if m == "np32" and all(float(np.float32(x)) == float(x) for x in v):
+        return np.array(v, dtype=np.float32)
+    if m == "tuple":
+        return tuple(v)
+    return list(v)
+
+
+# memory layouts / dtypes of a matrix handed to the API: same VALUES, different array object
+LAYOUTS = ("C", "F", "T", "adj", "strided", "offset", "neg", "ro", "c64", "Fc64", "real", "Freal", "int", "Fint", "i8", "list")
+
+
+def relayout(a, name):
+    """an array with the entries of `a` in the named memory layout / dtype (dtype changes only when exact)"""
+    a0 = np.array(a, dtype=complex)
+    a = a0.copy()
+    n = a.shape[0]
+    if name in ("c64", "Fc64") and np.array_equal(a.astype(np.complex64).astype(complex), a0):
+        a = a.astype(np.complex64)
+    if name in ("real", "Freal", "int", "Fint", "i8") and np.all(a.imag == 0):
+        a = a.real.copy()
+        if name in ("int", "Fint", "i8") and np.all(a == np.round(a)) and np.all(np.abs(a) < 100):
+            a = a.astype(np.int8 if name == "i8" else np.int64)
+    if name in ("F", "Fc64", "Freal", "Fint"):
+        out = np.asfortranarray(a)
+    elif name == "T":            # a transposed view of a C-ordered array
+        out = np.ascontiguousarray(a.T).T
+    elif name == "adj":          # the adjoint of the adjoint: what u.conj().T hands back
+        out = np.ascontiguousarray(a.conj().T).conj().T
+    elif name == "strided":      # every second row / column of a larger array
+        big = np.zeros((2 * n + 1, 2 * n + 2), dtype=a.dtype)
+        out = big[1::2, 1::2][:n, :n]
+        out[...] = a
+    elif name == "offset":       # a window into a larger array (rows contiguous, array not)
+        big = np.zeros((n + 2, n + 3), dtype=a.dtype)
+        out = big[1:n + 1, 2:n + 2]
+        out[...] = a
+    elif name == "neg":          # negative strides
+        out = np.ascontiguousarray(a[::-1, ::-1])[::-1, ::-1]
+    elif name == "ro":
+        out = a.copy()
+        out.setflags(write=False)
+    elif name == "list":
+        return [[complex(e) if e.imag else float(e.real) for e in row] for row in a0]
+    else:
+        out = a
+    assert np.array_equal(np.asarray(out, dtype=complex), a0), name
+    return out
 
 
 def build_gate(spec, F):
@@ -59,19 +206,21 @@ def build_gate(spec, F):
     if k in one:
         return one[k](qubit(F, spec[1]))
     if k in ("Rx", "Ry", "Rz"):
-        return {"Rx": qib.RxGate, "Ry": qib.RyGate, "Rz": qib.RzGate}[k](spec[1], qubit(F, spec[2]))
+        return {"Rx": qib.RxGate, "Ry": qib.RyGate, "Rz": qib.RzGate}[k](num(spec[1]), qubit(F, spec[2]))
     if k in ("Rxx", "Ryy", "Rzz"):
-        return {"Rxx": qib.RxxGate, "Ryy": qib.RyyGate, "Rzz": qib.RzzGate}[k](spec[1], qubit(F, spec[2]), qubit(F, spec[3]))
+        return {"Rxx": qib.RxxGate, "Ryy": qib.RyyGate, "Rzz": qib.RzzGate}[k](num(spec[1]), qubit(F, spec[2]), qubit(F, spec[3]))
     if k == "Rot":
-        return qib.RotationGate(list(spec[1]), qubit(F, spec[2]))
+        return qib.RotationGate(numvec(spec[1]), qubit(F, spec[2]))
     if k == "Prep":
-        return qib.PrepareGate(list(spec[1]), len(spec[2])).on([qubit(F, p) for p in spec[2]])
+        return qib.PrepareGate(numvec(spec[1]), len(spec[2])).on([qubit(F, p) for p in spec[2]])
     if k == "iSwap":
         return qib.ISwapGate(qubit(F, spec[1]), qubit(F, spec[2]))
     if k == "Phase":
-        return qib.PhaseFactorGate(spec[1], len(spec[2])).on([qubit(F, p) for p in spec[2]])
+        return qib.PhaseFactorGate(num(spec[1]), len(spec[2])).on([qubit(F, p) for p in spec[2]])
     if k == "Gen":
-        m = np.array([[complex(*e) for e in row] for row in spec[1]])
+        # optional 4th entry: memory layout / dtype of the matrix handed to the constructor
+        m = relayout(np.array([[complex(*e) for e in row] for row in spec[1]]),
+                     spec[3] if len(spec) > 3 and not FMODE.get("ref") else "C")
         return qib.GeneralGate(m, len(spec[2])).on([qubit(F, p) for p in spec[2]])
     if k == "C":
         inner = build_gate(spec[3], F)
@@ -135,9 +284,9 @@ def apply_mutation(obj, mut, F):
     elif k == "attr_qubit":
         obj.qubit = qubit(F, mut[1])
     elif k == "theta":
-        obj.theta = mut[1]
+        obj.theta = num(mut[1])
     elif k == "phi":
-        obj.phi = mut[1]
+        obj.phi = num(mut[1])
     elif k == "q1":
         obj.q1 = qubit(F, mut[1])
     elif k == "q2":
@@ -161,7 +310,7 @@ def apply_mutation(obj, mut, F):
     elif k == "prtcl_inplace":
         obj.prtcl[mut[1]] = qubit(F, mut[2])
     elif k == "mat":
-        obj.mat = np.array([[complex(*e) for e in row] for row in mut[1]])
+        obj.mat = np.asarray(relayout(np.array([[complex(*e) for e in row] for row in mut[1]]), mut[2] if len(mut) > 2 else "C"))
     elif k == "ntheta":
         obj.ntheta = np.array(mut[1], dtype=float)
     elif k == "tgate":
@@ -266,6 +415,55 @@ def ref_embed(nw, ws, G):
     return np.einsum(*args).reshape(2 ** nw, 2 ** nw)
 
 
+def ref_embed_coo(nw, ws, G):
+    """independent SPARSE reference for registers too large for a dense comparison (numpy only): the sorted
+    (row, col, value) entries of G on wires ws (x) identity.  Row r has the gate index a(r) = bits of r at the listed
+    wires (first listed = most significant); its non-zero columns are r with those bits replaced by the bits of b"""
+    m = len(ws)
+    G = np.asarray(G, dtype=complex)
+    r = np.arange(2 ** nw, dtype=np.int64)
+    a = np.zeros_like(r)
+    for t, w in enumerate(ws):
+        a |= ((r >> (nw - 1 - w)) & 1) << (m - 1 - t)
+    mask = sum(1 << (nw - 1 - w) for w in ws)
+    rest = r & ~np.int64(mask)
+    rows, cols, vals = [], [], []
+    for b in range(2 ** m):
+        scat = sum(((b >> (m - 1 - t)) & 1) << (nw - 1 - w) for t, w in enumerate(ws))
+        v = G[a, b]
+        keep = v != 0
+        rows.append(r[keep])
+        cols.append((rest | scat)[keep])
+        vals.append(v[keep])
+    rows, cols, vals = np.concatenate(rows), np.concatenate(cols), np.concatenate(vals)
+    o = np.lexsort((cols, rows))
+    return rows[o], cols[o], vals[o]
+
+
+def coo_sorted(out):
+    """sorted (row, col, value) entries of a scipy sparse matrix, duplicates summed, explicit zeros dropped"""
+    c = out.tocsr().copy()
+    c.sum_duplicates()
+    c = c.tocoo()
+    rows, cols, vals = c.row.astype(np.int64), c.col.astype(np.int64), np.asarray(c.data, dtype=complex)
+    keep = vals != 0
+    rows, cols, vals = rows[keep], cols[keep], vals[keep]
+    o = np.lexsort((cols, rows))
+    return rows[o], cols[o], vals[o]
+
+
+DENSE_MAX = 9        # registers with more wires are compared entry list against entry list
+
+
+def embeds_exactly(out, nw, ws, G):
+    """the sparse matrix `out` is exactly G on wires ws (first = most significant) (x) identity on the nw-wire register"""
+    if tuple(out.shape) != (2 ** nw, 2 ** nw):
+        return False
+    if nw <= DENSE_MAX:
+        return bool(np.array_equal(dense(out), ref_embed(nw, ws, G)))
+    return all(x.shape == y.shape and np.array_equal(x, y) for x, y in zip(coo_sorted(out), ref_embed_coo(nw, ws, G)))
+
+
 def ref_permute(u, perm):
     """independent reference for permute_gate_wires: u[sigma r, sigma c], sigma(r)[perm[t]] = r[t]"""
     n = len(perm)
@@ -322,6 +520,16 @@ def rand_phase_perm(rng, dim):
     return U_
 
 
+def rand_dense_unitary(rng, dim):
+    """exact DENSE non-symmetric unitary (dim >= 4): phase-permutation x (1 - 2J/dim) x phase-permutation; all entries are
+    non-zero dyadic rationals times a unit phase"""
+    H_ = np.identity(dim) - 2.0 * np.ones((dim, dim)) / dim
+    while True:
+        U_ = rand_phase_perm(rng, dim) @ H_ @ rand_phase_perm(rng, dim)
+        if not np.array_equal(U_, U_.T):
+            return U_
+
+
 def csr_parts(G):
     from scipy.sparse import csr_matrix
     g = csr_matrix(G)
@@ -340,7 +548,9 @@ def oracle_distribute(ctx, nw, ws, G, desc):
     valid = len(set(ws)) == len(ws) and all(0 <= w < nw for w in ws)
     with Spy() as spy:
         try:
-            out = gates._distribute_to_wires(nw, list(ws), csr_matrix(G))
+            # desc["gl"]: memory layout / dtype of the dense gate matrix the CSR structure is made from
+            gl = desc.get("gl", "C") if isinstance(desc, dict) else "C"
+            out = gates._distribute_to_wires(nw, list(ws), csr_matrix(np.asarray(relayout(G, gl)) if gl != "C" else G))
             raw = spy.last
         except AssertionError:
             out, raw = None, None
@@ -354,9 +564,8 @@ def oracle_distribute(ctx, nw, ws, G, desc):
     if not valid:
         ctx.fail("distribute:accepts-invalid-wires", desc, "AssertionError", "a matrix")
         return raw, dense(out)
-    D = dense(out)
-    R = ref_embed(nw, ws, G)
-    if D.shape != R.shape or not np.array_equal(D, R):
+    D = dense(out) if nw <= DENSE_MAX else None
+    if not embeds_exactly(out, nw, ws, G):
         ctx.fail("distribute:not-gate-on-its-wires-times-identity", desc,
                  "G on wires %s (first = most significant) (x) 1" % list(ws), "differs")
     coords = [(r, c) for r, c, _ in (raw or [])]      # raw is None when the result was not built from triples
@@ -366,13 +575,20 @@ def oracle_distribute(ctx, nw, ws, G, desc):
 
 
 def oracle_gate(ctx, sizes, order, spec, desc):
-    """Gate.as_circuit_matrix on a real gate object; returns (kind, raw triples, dense)"""
+    """Gate.as_circuit_matrix on a real gate object; returns (kind, raw triples, dense).
+    `order` may list a field more than once (the particle is then found at the FIRST occurrence, every listed copy
+    contributes its wires); desc["fmode"] fixes how fields / lattices / qubit objects / parameters are made"""
+    with field_mode(desc.get("fmode")):
+        return _oracle_gate(ctx, sizes, order, spec, desc)
+
+
+def _oracle_gate(ctx, sizes, order, spec, desc):
     F = mk_fields(sizes)
     g = build_gate(spec, F)
     fields = [F[i] for i in order]
     prt = spec_particles(spec)
-    listed = [(p.field, p.index) for p in g.particles()]
-    if listed != [(F[a], b) for a, b in prt]:
+    listed = [(fidx(F, p.field), p.index) for p in g.particles()]
+    if listed != [(a, b) for a, b in prt]:
         ctx.fail("particles:order", desc, prt, "differs")
     ws = [wire_of(sizes, order, p) for p in prt]
     nw = sum(sizes[i] for i in order)
@@ -393,22 +609,28 @@ def oracle_gate(ctx, sizes, order, spec, desc):
             return None, None, None
     if any(w < 0 for w in ws):
         ctx.fail("as_circuit_matrix:accepts-unlisted-field", desc, "RuntimeError", "a matrix")
-        return 2, raw, dense(out)
+        return 2, raw, (dense(out) if nw <= DENSE_MAX else None)
+    if len(set(ws)) != len(ws):
+        ctx.fail("as_circuit_matrix:accepts-a-wire-used-twice", desc, "AssertionError", "a matrix")
+        return 2, raw, (dense(out) if nw <= DENSE_MAX else None)
     # wires the implementation computed
     import qib
     iw = [qib.util.map_particle_to_wire(fields, qubit(F, p)) for p in prt]
     if iw != ws:
         ctx.fail("map_particle_to_wire:not-offset-of-earlier-fields-plus-index", desc, ws, iw)
-    D = dense(out)
-    R = ref_embed(nw, ws, g.as_matrix())
-    if D.shape != R.shape or not np.array_equal(D, R):
+    gm = g.as_matrix()
+    gm_ref = ref_gate_matrix(spec, sizes)         # the same gate built from a plain C-ordered matrix
+    if gm_ref.shape != np.shape(gm) or not np.array_equal(np.asarray(gm, dtype=complex), np.asarray(gm_ref, dtype=complex)):
+        ctx.fail("as_matrix:depends-on-the-memory-layout-of-the-constructor-argument", desc, "the matrix handed over", "differs")
+    D = dense(out) if nw <= DENSE_MAX else None
+    if not embeds_exactly(out, nw, ws, gm_ref):
         ctx.fail("as_circuit_matrix:not-gate-on-its-wires-times-identity", desc,
                  "as_matrix() on wires %s (x) 1" % ws, "differs")
     # permute_gate_wires is the matching conjugation: embed = permute(G (x) 1, invperm(ws ++ rest))
     if nw <= 7:
         orderw = ws + [w for w in range(nw) if w not in ws]
         inv = [orderw.index(s) for s in range(nw)]
-        P = qib.util.permute_gate_wires(np.kron(g.as_matrix(), np.identity(2 ** (nw - len(ws)))), inv)
+        P = qib.util.permute_gate_wires(np.kron(gm, np.identity(2 ** (nw - len(ws)))), inv)
         if not np.array_equal(np.asarray(P, dtype=complex), D):
             ctx.fail("as_circuit_matrix:not-permute_gate_wires-of-kron", desc, "permute(G (x) 1, %s)" % inv, "differs")
     return 2, raw, D
@@ -433,6 +655,11 @@ def oracle_gate_history(ctx, sizes, spec, steps, desc, collect=None):
     (["scribble", k]).  Every query is compared with the independent reference for the gate's CURRENT value (a gate
     built afresh from the value, embedded by einsum); every matrix handed out earlier must keep its entries.
     collect: list receiving (order, current spec, raw triples) of the successful queries"""
+    with field_mode(desc.get("fmode")):
+        return _oracle_gate_history(ctx, sizes, spec, steps, desc, collect)
+
+
+def _oracle_gate_history(ctx, sizes, spec, steps, desc, collect=None):
     F = mk_fields(sizes)
     try:
         g = build_gate(spec, F)
@@ -491,12 +718,11 @@ def oracle_gate_history(ctx, sizes, spec, steps, desc, collect=None):
                          got)
                 return False
             if got == "ok":
-                listed = [(F.index(p.field), p.index) for p in g.particles()]
+                listed = [(fidx(F, p.field), p.index) for p in g.particles()]
                 if listed != [tuple(p) for p in spec_particles(cur)]:
                     ctx.fail("particles:not-current-after-rebinding", desc, [list(p) for p in spec_particles(cur)], listed)
                     return False
-                ref_gate = build_gate(cur, mk_fields(sizes))          # fresh object: no history
-                R = ref_embed(nw, ws, ref_gate.as_matrix())
+                R = ref_embed(nw, ws, ref_gate_matrix(cur, sizes))    # fresh object: no history; plain C-ordered matrices
                 D = dense(out)
                 if (D.shape != R.shape or not np.array_equal(D, R)) and \
                         any(out is o or np.shares_memory(out.data, o.data) for o in scribbled):
@@ -522,15 +748,48 @@ def oracle_gate_history(ctx, sizes, spec, steps, desc, collect=None):
     return True
 
 
+PERM_TYPES = ("list", "tuple", "array", "argsort", "int32")
+
+
+def oracle_permute_large(ctx, n, perm, seed, layout):
+    """permute_gate_wires on a 2^n x 2^n sparse-ish integer matrix regenerated from `seed` (too large for a JSON literal)"""
+    N = 2 ** n
+    r2 = np.random.RandomState(seed)
+    u = (r2.randint(-3, 4, size=(N, N)) * (r2.random_sample((N, N)) < 0.3)).astype(complex)
+    u[0, N - 1] += 1
+    return oracle_permute(ctx, u, perm, {"kind": "permute_large", "n": n, "perm": perm, "seed": int(seed), "layout": layout})
+
+
+def as_perm_type(perm, ptype):
+    """the permutation in the container the caller may hand over (np.argsort(...) is what callers typically pass)"""
+    if ptype == "tuple":
+        return tuple(perm)
+    if ptype == "array":
+        return np.array(perm)
+    if ptype == "int32":
+        return np.array(perm, dtype=np.int32)
+    if ptype == "argsort":
+        inv = [list(perm).index(i) for i in range(len(perm))]
+        return np.argsort(inv)
+    return list(perm)
+
+
 def oracle_permute(ctx, u, perm, desc):
+    """desc["layout"]: memory layout / dtype of the matrix handed over (same values); desc["ptype"]: container of perm"""
     import qib
+    layout, ptype = desc.get("layout", "C"), desc.get("ptype", "list")
+    arg = np.asarray(relayout(u, layout))
+    before = np.array(arg, dtype=complex)
     try:
-        out = np.asarray(qib.util.permute_gate_wires(np.array(u), list(perm)), dtype=complex)
+        res = qib.util.permute_gate_wires(arg, as_perm_type(perm, ptype))
+        out = np.asarray(res, dtype=complex)
     except Exception as e:
         ctx.fail("permute_gate_wires:crash:" + type(e).__name__, desc, "matrix", repr(e))
         return None
-    if not np.array_equal(out, ref_permute(u, perm)):
+    if out.shape != before.shape or not np.array_equal(out, ref_permute(before, perm)):
         ctx.fail("permute_gate_wires:not-conjugation-by-wire-permutation", desc, "u[sigma r, sigma c]", "differs")
+    if not np.array_equal(np.asarray(arg, dtype=complex), before):
+        ctx.fail("permute_gate_wires:overwrites-its-argument", desc, "argument unchanged", "changed")
     return out
 
 
@@ -562,7 +821,7 @@ def spec_mutations(rng, sub, allp, exact=False):
         out = [["prtcl_inplace", rng.randrange(n), p()[0]]]
         if n <= len(allp):
             out += [["onlist", p(n)], ["onargs", p(n)]]
-        out.append(["phi", th()] if k == "Phase" else ["mat", mat_spec(rand_phase_perm(rng, 2 ** n))])
+        out.append(["phi", th()] if k == "Phase" else ["mat", mat_spec(rand_phase_perm(rng, 2 ** n)), rand_layout(rng)])
         return out
     if k == "C":
         n = len(sub[1])
@@ -597,12 +856,66 @@ def retarget_all(rng, spec, path, allp):
     return [["m", path + [i], [rng.choice(["on1", "attr_qubit"]), q]] for i in range(len(sub[2]))]
 
 
+GEN_LAYOUTS = ("C", "C", "F", "T", "adj", "strided", "offset", "neg", "ro", "c64", "Fc64", "Fint", "i8", "list")
+
+
+def rand_layout(rng):
+    return rng.choice(GEN_LAYOUTS)
+
+
+def share_patterns(sizes):
+    """all ways to let fields of EQUAL size share a lattice object: lists of group labels (one per field), incl. the
+    trivial one (None: every field its own lattice)"""
+    n = len(sizes)
+    pats = [None]
+
+    def rec(i, cur):
+        if i == n:
+            if len(set(cur)) < n:
+                pats.append(list(cur))
+            return
+        for lab in range(max(cur, default=-1) + 2):
+            if lab <= max(cur, default=-1) and sizes[cur.index(lab)] != sizes[i]:
+                continue            # same label = same lattice object: needs the same number of sites
+            rec(i + 1, cur + [lab])
+    rec(0, [])
+    return pats
+
+
+def rand_fmode(rng, sizes, nums=("np64", "int", "tuple")):
+    """a random mode: lattice sharing where sizes allow it, lattice flavours, interned qubits, parameter types"""
+    m = {}
+    pats = share_patterns(sizes)
+    if len(pats) > 1 and rng.random() < 0.6:
+        m["lat"] = rng.choice(pats[1:])
+    if rng.random() < 0.3:
+        m["flavor"] = [rng.choice(["int", "pbc", "2d", "full", "layer"]) for _ in sizes]
+    if rng.random() < 0.4:
+        m["intern"] = True
+    if nums and rng.random() < 0.3:
+        m["num"] = rng.choice(nums)
+    return m
+
+
+def orders_with_repeats(nf):
+    """field lists (index lists) in which one field is listed twice"""
+    out = []
+    for k in range(1, nf + 1):
+        for o in itertools.permutations(range(nf), k):
+            for i in range(len(o)):
+                for pos in range(i + 1, len(o) + 1):
+                    out.append(list(o[:pos]) + [o[i]] + list(o[pos:]))
+    return out
+
+
 def gate_histories(rng, thorough):
     """(sizes, spec, steps): scripted = every mutation kind on every reachable object of every base gate, between
     two queries with the SAME field list, then a different list, then the first again; + random histories"""
     out = []
     gen2 = mat_spec(rand_phase_perm(rng, 4))
-    for sizes in ([2, 3], [1, 2, 2]) if thorough else ([2, 3],):
+    # the second configuration: two DISTINCT fields on ONE lattice object, one Qubit object per site
+    for sizes, fm in (([2, 3], {}), ([3, 3], {"lat": [0, 0], "intern": True}), ([1, 2, 2], {}), ([2, 2, 2], {"lat": [0, 1, 0]})) \
+            if thorough else (([2, 3], {}), ([3, 3], {"lat": [0, 0], "intern": True})):
         sizes = list(sizes)
         nf = len(sizes)
         allp = [(fi, i) for fi, n in enumerate(sizes) for i in range(n)]
@@ -610,9 +923,9 @@ def gate_histories(rng, thorough):
         A, B, C_, D = ((0, 0), (0, 1), (1, 0), (1, 2)) if nf == 2 else ((0, 0), (1, 0), (1, 1), (2, 1))
         bases = [
             ["X", A], ["Rz", 0.5, B], ["Rot", [0.25, -0.5, 0.75], C_], ["Rzz", 0.375, A, C_], ["Rxx", -0.25, D, B],
-            ["iSwap", C_, A], ["Phase", 0.25, [B, D]], ["Gen", gen2, [D, A]], ["Prep", [0.5, 0.25, -0.125, 0.125], [C_, B]],
+            ["iSwap", C_, A], ["Phase", 0.25, [B, D]], ["Gen", gen2, [D, A], rand_layout(rng)], ["Prep", [0.5, 0.25, -0.125, 0.125], [C_, B]],
             ["C", [1], [A], ["X", D]], ["C", [0], [D], ["Rz", -0.75, A]], ["C", [1, 0], [C_, A], ["Y", B]],
-            ["C", [1], [B], ["Gen", gen2, [D, A]]], ["C", [1], [A], ["C", [0], [C_], ["Y", D]]],
+            ["C", [1], [B], ["Gen", gen2, [D, A], rand_layout(rng)]], ["C", [1], [A], ["C", [0], [C_], ["Y", D]]],
             ["C", [0], [D], ["iSwap", A, B]], ["C", [1], [C_], ["Rzz", 0.5, B, A]],
             ["Mux", [A], [["X", D], ["S", D]]], ["Mux", [D], [["C", [1], [B], ["X", A]], ["C", [0], [B], ["Z", A]]]],
             ["C", [1], [B], ["Mux", [A], [["Y", C_], ["Z", C_]]]],
@@ -635,13 +948,15 @@ def gate_histories(rng, thorough):
                         steps = [["q", o1], ["q", o2]] + ms + [["q", o2], ["q", o1]]
                     else:
                         steps = [["q", o1], ["q", o1], ["scribble", 0]] + ms + [["q", o1], ["scribble", 2], ["q", o1], ["q", o2]]
-                    out.append((sizes, base, steps))
+                    out.append((sizes, base, steps, dict(fm)))
     # random histories
     for _ in range(400 if thorough else 120):
-        sizes = rng.choice([[3], [4], [2, 2], [1, 3], [2, 1, 2]])
+        sizes = rng.choice([[3], [4], [2, 2], [1, 3], [2, 1, 2], [2, 2], [2, 2, 2]])
         nf = len(sizes)
         allp = [(fi, i) for fi, n in enumerate(sizes) for i in range(n)]
         orders = [list(o) for k in range(max(1, nf - 1), nf + 1) for o in itertools.permutations(range(nf), k)]
+        if nf >= 2:
+            orders += rng.sample(orders_with_repeats(nf), 2)        # a field listed twice
         ps = [list(x) for x in rng.sample(allp, 3)]
         kind = rng.randrange(8)
         if kind == 0:
@@ -655,9 +970,9 @@ def gate_histories(rng, thorough):
         elif kind == 4:
             spec = ["Mux", [ps[0]], [[rng.choice(["X", "Y"]), ps[1]], [rng.choice(["Z", "S"]), ps[1]]]]
         elif kind == 5:
-            spec = ["Gen", mat_spec(rand_phase_perm(rng, 4)), [ps[0], ps[1]]]
+            spec = ["Gen", mat_spec(rand_phase_perm(rng, 4)), [ps[0], ps[1]], rand_layout(rng)]
         elif kind == 6:
-            spec = ["C", [1], [ps[0]], ["Gen", mat_spec(rand_phase_perm(rng, 4)), [ps[1], ps[2]]]]
+            spec = ["C", [1], [ps[0]], ["Gen", mat_spec(rand_phase_perm(rng, 4)), [ps[1], ps[2]], rand_layout(rng)]]
         else:
             spec = [["Rzz", 0.5, ps[0], ps[1]], ["iSwap", ps[0], ps[1]], ["Phase", 0.25, [ps[0], ps[1]]], ["Rx", 0.5, ps[0]]][rng.randrange(4)]
         cur = jcopy(spec)
@@ -684,7 +999,7 @@ def gate_histories(rng, thorough):
                 steps.append(["q", last])
                 nq += 1
         steps.append(["q", last])
-        out.append((sizes, spec, steps))
+        out.append((sizes, spec, steps, rand_fmode(rng, sizes, nums=("np64", "np32", "int", "tuple"))))
     return out
 
 
@@ -765,9 +1080,18 @@ def run(ctx):
     for off, nw in ((1, 6), (0, 4)) + (((2, 7), (0, 5)) if ctx.thorough else ()):
         for ws in itertools.permutations(range(off, off + 4)):
             sels.append((nw, list(ws)))
+    # registers of 10..12 wires (entry lists compared with a numpy-only sparse reference; no dense matrix is formed)
+    n_small = len(sels)
+    for _ in range(24 if ctx.thorough else 10):
+        nw = rng.randint(10, 12)
+        m = rng.randint(1, 4)
+        ws = rng.sample(range(nw), m)
+        if rng.random() < 0.3:
+            ws = sorted(ws, reverse=True)
+        sels.append((nw, ws))
     ctx.exhaustive = {"ordered wire selections m<=%d of nw<=6" % max_m: n_sel_exh}
     seen_csr = 0
-    for nw, ws in sels:
+    for isel, (nw, ws) in enumerate(sels):
         m = len(ws)
         dim = 2 ** m
         if nw >= 7:
@@ -779,9 +1103,23 @@ def run(ctx):
         G = rand_gauss(rng, dim, density)
         if dim > 1 and np.array_equal(G, G.T):
             G[0, dim - 1] += 1
+        # memory layout / dtype of the dense matrix the CSR structure is made from (same values)
+        gl = "C"
+        if isel >= n_sel_exh or rng.random() < 0.25:
+            gl = rng.choice(["C", "F", "T", "strided", "c64", "real", "Fint", "i8"])
+            if gl in ("real", "Fint", "i8"):
+                G = np.array(G.real, dtype=complex)
+                if dim > 1 and np.array_equal(G, G.T):
+                    G[0, dim - 1] += 1
         desc = {"kind": "distribute", "nw": nw, "ws": ws, "G": mat_spec(G)}
+        if gl != "C":
+            desc["gl"] = gl
         ctx.count("distribute_nw=%d_m=%d" % (nw, m))
+        ctx.count("distribute_matrix_layout_" + gl)
         raw, D = oracle_distribute(ctx, nw, ws, G, desc)
+        if nw > DENSE_MAX:
+            ctx.nontriv({"kind": "distribute-large-register", "nw": nw, "ws": ws})
+            continue                      # oracle only: the triple list is too long for a Coq literal
         g, indptr, indices, data = csr_parts(G)
         nt = ws != list(range(m))
         short = {"kind": "distribute", "nw": nw, "ws": ws, "nnz": len(data)}
@@ -824,12 +1162,12 @@ def run(ctx):
         total = sum(sizes)
         kinds = ["X", "Y", "Z", "S", "Gen1", "Gen2", "Gen3", "C1", "C2", "iSwap", "Mux", "CC", "I", "Sdg", "Gen4", "C3", "CGen2"]
         if not exact:
-            kinds += ["H", "T", "Rx", "Ry", "Rz", "Rxx", "Ryy", "Rzz", "Phase", "Sx", "CH", "Tdg", "Rot", "Prep2"]
+            kinds += ["H", "T", "Rx", "Ry", "Rz", "Rxx", "Ryy", "Rzz", "Phase", "Sx", "CH", "Tdg", "Rot", "Prep2", "GenD2", "GenD3"]
         if force is not None:
             kinds = [force]
         for _ in range(50):
             k = rng.choice(kinds)
-            need = {"Gen2": 2, "Gen3": 3, "C1": 2, "C2": 3, "iSwap": 2, "Mux": 2, "CC": 3, "Rxx": 2, "Ryy": 2, "Rzz": 2,
+            need = {"GenD2": 2, "GenD3": 3, "Gen2": 2, "Gen3": 3, "C1": 2, "C2": 3, "iSwap": 2, "Mux": 2, "CC": 3, "Rxx": 2, "Ryy": 2, "Rzz": 2,
                     "Phase": 2, "CH": 2, "Gen4": 4, "C3": 4, "CGen2": 4, "Prep2": 2}.get(k, 1)
             if need > total:
                 continue
@@ -850,9 +1188,12 @@ def run(ctx):
             if k == "C3":       # three (possibly negated) controls, four wires in all
                 return ["C", [rng.randint(0, 1) for _ in range(3)], ps[:3], [rng.choice(["X", "Y", "S"]), ps[3]]]
             if k == "CGen2":    # two controls on a dense two-wire target
-                return ["C", [rng.randint(0, 1), rng.randint(0, 1)], ps[:2], ["Gen", mat_spec(rand_phase_perm(rng, 4)), ps[2:]]]
+                return ["C", [rng.randint(0, 1), rng.randint(0, 1)], ps[:2],
+                        ["Gen", mat_spec(rand_phase_perm(rng, 4)), ps[2:], rand_layout(rng)]]
+            if k.startswith("GenD"):    # a matrix without any zero entry
+                return ["Gen", mat_spec(rand_dense_unitary(rng, 2 ** need)), ps, rand_layout(rng)]
             if k.startswith("Gen"):
-                return ["Gen", mat_spec(rand_phase_perm(rng, 2 ** need)), ps]
+                return ["Gen", mat_spec(rand_phase_perm(rng, 2 ** need)), ps, rand_layout(rng)]
             if k == "iSwap":
                 return ["iSwap", ps[0], ps[1]]
             if k == "C1":
@@ -867,9 +1208,30 @@ def run(ctx):
                 return ["Mux", [ps[0]], [[rng.choice(["X", "Y"]), ps[1]], [rng.choice(["Z", "S"]), ps[1]]]]
         return ["X", rand_particles(sizes, 1)[0]]
 
-    def gate_case(sizes, order, spec):
+    def gen_layouts_in(spec):
+        if spec[0] == "Gen":
+            return [spec[3] if len(spec) > 3 else "C"]
+        if spec[0] == "C":
+            return gen_layouts_in(spec[3])
+        if spec[0] == "Mux":
+            return [l for t in spec[2] for l in gen_layouts_in(t)]
+        return []
+
+    def gate_case(sizes, order, spec, fmode=None):
+        with field_mode(fmode):
+            _gate_case(sizes, order, spec, fmode)
+
+    def _gate_case(sizes, order, spec, fmode):
         nf = len(sizes)
         desc = {"kind": "gate", "sizes": sizes, "order": order, "spec": spec}
+        if fmode:
+            desc["fmode"] = fmode
+            for k_, v_ in fmode.items():
+                ctx.count("gate_fmode_%s%s" % (k_, "=" + v_ if k_ == "num" else ""))
+        if len(set(order)) < len(order):
+            ctx.count("gate_field_listed_twice")
+        for l_ in gen_layouts_in(spec):
+            ctx.count("gate_general_matrix_layout_" + l_)
         ctx.count("gate_fields=%d_listed=%d" % (nf, len(order)))
         ctx.count("gate_" + spec[0])
         ctx.count("gate_wires=%d" % len(spec_particles(spec)))
@@ -911,25 +1273,92 @@ def run(ctx):
     # different sizes (so an edit confined to one class's as_circuit_matrix / particles() meets an input);
     # gates on four wires (dense 16x16, three controls, two controls on a dense two-wire target)
     every = ["I", "X", "Y", "Z", "H", "S", "Sdg", "T", "Tdg", "Sx", "Rx", "Ry", "Rz", "Rot", "Rxx", "Ryy", "Rzz", "iSwap",
-             "Phase", "Prep2", "Gen2", "Gen3", "C1", "C2", "CC", "Mux", "Gen4", "C3", "CGen2"]
+             "Phase", "Prep2", "Gen2", "Gen3", "C1", "C2", "CC", "Mux", "Gen4", "C3", "CGen2", "GenD2", "GenD3"]
     for kname in every:
         for sizes in ([2, 3], [2, 1, 3]) + (([1, 4], [3, 2, 2]) if ctx.thorough else ()):
             sizes = list(sizes)
             nf = len(sizes)
             spec = rand_spec(sizes, False, force=kname)
-            if spec[0] != {"Prep2": "Prep", "Gen2": "Gen", "Gen3": "Gen", "Gen4": "Gen", "C1": "C", "C2": "C", "CC": "C",
+            if spec[0] != {"Prep2": "Prep", "Gen2": "Gen", "Gen3": "Gen", "Gen4": "Gen", "GenD2": "Gen", "GenD3": "Gen", "C1": "C", "C2": "C", "CC": "C",
                            "C3": "C", "CGen2": "C"}.get(kname, kname):
                 continue
             orders = [list(p) for p in itertools.permutations(range(nf))]
             if not ctx.thorough and len(orders) > 2:
                 orders = rng.sample(orders, 3)
             orders.append(list(range(nf - 1)))          # last field unlisted
+            orders.append(rng.choice(orders_with_repeats(nf)))      # a field listed twice
             for order in orders:
                 gate_case(sizes, order, spec)
-    # extra map_particle_to_wire sweep: all particles x all orders x listed subsets
-    for sizes in ([2, 3], [3, 1, 2], [1, 2, 3], [2, 2, 1]):
+    # ---- (B2) relations between the OBJECTS an input is made of.  A spec fixes field sizes and (field, site) pairs; here
+    # every way to realise it is enumerated: distinct fields on ONE lattice object / on equal lattices in distinct objects,
+    # a field listed twice, one Qubit object per site (shared) / a fresh one per mention, lattice flavours; gates with
+    # control and target at the SAME site of two registers, dense two-wire gates across the registers
+    for sizes in ([2, 2], [2, 2, 1], [2, 2, 2]) + (([3, 3], [1, 1, 1], [3, 2, 3]) if ctx.thorough else ()):
+        sizes = list(sizes)
+        nf = len(sizes)
+        allp = [(fi, i) for fi, n in enumerate(sizes) for i in range(n)]
+        orders = [list(o) for k in range(1, nf + 1) for o in itertools.permutations(range(nf), k)]
+        rep = orders_with_repeats(nf)
+        for lat in share_patterns(sizes):
+            for intern in (False, True):
+                fm = {}
+                if lat:
+                    fm["lat"] = lat
+                if intern:
+                    fm["intern"] = True
+                if rng.random() < 0.3:
+                    fm["flavor"] = [rng.choice(["int", "pbc", "2d", "full", "layer"]) for _ in sizes]
+                gen2 = mat_spec(rand_phase_perm(rng, 4))
+                same_site = [(a, b) for a in allp for b in allp if a[0] != b[0] and a[1] == b[1]]
+                a, b = rng.choice(same_site)
+                c, d = rng.sample(allp, 2)
+                specs = [["Y", list(p)] for p in allp] + [
+                    ["C", [1], [list(a)], ["X", list(b)]], ["C", [0], [list(b)], ["S", list(a)]],
+                    ["Gen", gen2, [list(b), list(a)], rand_layout(rng)], ["Gen", gen2, [list(c), list(d)], rand_layout(rng)],
+                    ["iSwap", list(a), list(b)],
+                    ["Gen", mat_spec(rand_dense_unitary(rng, 4)), [list(b), list(a)], rand_layout(rng)]]
+                if len(allp) >= 3:
+                    e3 = rng.sample(allp, 3)
+                    specs.append(["C", [1, 0], [list(e3[0]), list(e3[1])], ["Y", list(e3[2])]])
+                for spec in specs:
+                    os_ = orders if (ctx.thorough or len(orders) <= 4) else rng.sample(orders, 4)
+                    for order in os_ + rng.sample(rep, 2):
+                        gate_case(sizes, order, spec, fm)
+    # every gate class once more with the parameters handed over as numpy scalars / float32 / Python ints / tuples
+    for kname in every:
+        sizes = [2, 3]
+        fm = {"num": rng.choice(["np64", "np32", "int", "tuple"])}
+        with field_mode(fm):
+            spec = rand_spec(sizes, False, force=kname)
+        if kname in ("Rx", "Ry", "Rz", "Rxx", "Ryy", "Rzz", "Phase") and fm["num"] == "int":
+            spec[1] = float(rng.choice([-2, -1, 1, 2, 3]))
+        gate_case(sizes, rng.choice([[0, 1], [1, 0]]), spec, fm)
+    # registers of 9..12 wires (sparse entry-list comparison with the numpy-only reference)
+    for sizes in ([5, 6], [12], [4, 4, 4], [3, 7, 1], [9], [2, 8]) + (([6, 6], [1, 10, 1], [11]) if ctx.thorough else ()):
+        sizes = list(sizes)
+        nf = len(sizes)
+        for kname in ("Y", "C1", "Gen2", "C2", "Gen3", "iSwap", "Mux", "GenD3") + (("C3", "CGen2", "Rzz", "Phase", "GenD2") if ctx.thorough else ()):
+            spec = rand_spec(sizes, kname in ("Y", "C1", "Gen2", "C2", "Gen3", "iSwap", "Mux", "C3", "CGen2"), force=kname)
+            order = list(range(nf))
+            rng.shuffle(order)
+            fm = rand_fmode(rng, sizes, nums=None) if rng.random() < 0.5 else None
+            ctx.count("gate_large_register_nw=%d" % sum(sizes))
+            gate_case(sizes, order, spec, fm)
+    # extra map_particle_to_wire sweep: all particles x all orders x listed subsets x lattice sharing
+    for sizes, fm in (([2, 3], None), ([3, 1, 2], None), ([1, 2, 3], None), ([2, 2, 1], None), ([2, 2, 1], {"lat": [0, 0, 1]}),
+                      ([2, 2, 2], {"lat": [0, 0, 0]}), ([3, 3], {"lat": [0, 0], "intern": True}), ([2, 1, 2], {"lat": [0, 1, 0]})):
+      with field_mode(fm):
         nf = len(sizes)
         F = mk_fields(sizes)
+        for order in orders_with_repeats(nf):
+            for fi in range(nf):
+                for i in range(sizes[fi]):
+                    w = qib.util.map_particle_to_wire([F[j] for j in order], qubit(F, (fi, i)))
+                    ctx.count("mp2w_sweep_field_listed_twice")
+                    if w != wire_of(sizes, list(order), (fi, i)):
+                        ctx.fail("map_particle_to_wire:not-offset-of-earlier-fields-plus-index",
+                                 dict({"kind": "mp2w", "sizes": sizes, "order": list(order), "p": [fi, i]},
+                                      **({"fmode": fm} if fm else {})), wire_of(sizes, list(order), (fi, i)), w)
         for k in range(0, nf + 1):
             for order in itertools.permutations(range(nf), k):
                 fl = [(fi, sizes[fi]) for fi in order]
@@ -939,8 +1368,8 @@ def run(ctx):
                         ctx.count("mp2w_sweep")
                         if w != wire_of(sizes, list(order), (fi, i)):
                             ctx.fail("map_particle_to_wire:not-offset-of-earlier-fields-plus-index",
-                                     {"kind": "mp2w", "sizes": sizes, "order": list(order), "p": [fi, i]},
-                                     wire_of(sizes, list(order), (fi, i)), w)
+                                     dict({"kind": "mp2w", "sizes": sizes, "order": list(order), "p": [fi, i]},
+                                          **({"fmode": fm} if fm else {})), wire_of(sizes, list(order), (fi, i)), w)
                         add("CMp2w %s %s %s" % (pairs(fl), ct.pair(ct.z(fi), ct.z(i)), ct.z(w)),
                             {"kind": "mp2w", "fields": fl, "p": (fi, i)}, len(order) > 1)
 
@@ -950,8 +1379,12 @@ def run(ctx):
     # an object reachable through target_gate()/target_gates(), query again (same and other field lists); matrices
     # handed out earlier keep their entries, and a caller overwriting them does not disturb later queries
     n_acm_hist = 0
-    for sizes, spec, steps in gate_histories(rng, ctx.thorough):
+    for sizes, spec, steps, fm in gate_histories(rng, ctx.thorough):
         desc = {"kind": "gate_history", "sizes": sizes, "spec": spec, "steps": steps}
+        if fm:
+            desc["fmode"] = fm
+            for k_ in fm:
+                ctx.count("gate_history_fmode_" + k_)
         got = []
         oracle_gate_history(ctx, sizes, spec, steps, desc, collect=got)
         ctx.count("gate_history")
@@ -987,6 +1420,7 @@ def run(ctx):
         p = list(range(n))
         rng.shuffle(p)
         perms.append(p)
+    PERM_LAYOUTS = [l for l in LAYOUTS if l not in ("C", "list")]
     for perm in perms:
         n = len(perm)
         u = rand_gauss(rng, 2 ** n, 1.0 if n <= 3 else 0.5)
@@ -996,6 +1430,32 @@ def run(ctx):
         if out is not None:
             add("CPerm %s %s %s" % (ct.zimat(u), natlist(perm), ct.zimat(out)), {"kind": "permute", "perm": perm},
                 perm != list(range(n)))
+        # the same permutation on every memory layout / dtype of the argument (Fortran order, transposed and adjoint views,
+        # strided / offset / negatively strided windows, read-only, complex64, real, integer) and container of perm
+        for layout in (PERM_LAYOUTS if n <= 3 or ctx.thorough else rng.sample(PERM_LAYOUTS, 5)):
+            v = u
+            if layout in ("real", "Freal", "int", "Fint", "i8"):
+                v = np.array(u.real, dtype=complex)
+                if np.array_equal(v, v.T):
+                    v[0, -1] += 1
+            d2 = {"kind": "permute", "perm": perm, "u": mat_spec(v), "layout": layout, "ptype": rng.choice(PERM_TYPES)}
+            ctx.count("permute_layout_" + layout)
+            ctx.count("permute_perm_as_" + d2["ptype"])
+            oracle_permute(ctx, v, perm, d2)
+            if perm != list(range(n)):
+                ctx.nontriv({"kind": "permute-layout", "perm": perm, "layout": layout, "ptype": d2["ptype"]})
+    # larger gates (6..10 wires), numpy-only reference, a few layouts each
+    nprng = np.random.RandomState(rng.getrandbits(32))
+    for _ in range(12 if ctx.thorough else 5):
+        n = rng.randint(6, 10 if ctx.thorough else 9)
+        perm = list(range(n))
+        rng.shuffle(perm)
+        for layout in ["C"] + rng.sample(["F", "T", "adj", "strided", "neg", "c64", "Fint"], 2):
+            ctx.count("permute_n=%d" % n)
+            ctx.count("permute_layout_" + layout)
+            # not replayable from a JSON literal of this size: the descriptor names the generator seed instead
+            seed_ = nprng.randint(1 << 30)
+            oracle_permute_large(ctx, n, perm, seed_, layout)
 
     dis = ctx.cases("embed", HEADER, cases)
     for i, d in dis[:5]:
@@ -1015,12 +1475,15 @@ def replay(ctx, data):
         oracle_gate_history(ctx, inp["sizes"], inp["spec"], inp["steps"], inp)
     elif k == "mp2w":
         import qib
-        F = mk_fields(inp["sizes"])
-        w = qib.util.map_particle_to_wire([F[j] for j in inp["order"]], qubit(F, inp["p"]))
+        with field_mode(inp.get("fmode")):
+            F = mk_fields(inp["sizes"])
+            w = qib.util.map_particle_to_wire([F[j] for j in inp["order"]], qubit(F, inp["p"]))
         if w != wire_of(inp["sizes"], inp["order"], tuple(inp["p"])):
             ctx.fail(sig, inp, wire_of(inp["sizes"], inp["order"], tuple(inp["p"])), w)
     elif k == "permute":
         u = np.array([[complex(*e) for e in row] for row in inp["u"]])
         oracle_permute(ctx, u, inp["perm"], inp)
+    elif k == "permute_large":
+        oracle_permute_large(ctx, inp["n"], inp["perm"], inp["seed"], inp["layout"])
     if len(ctx.failing) > before and not any(f["sig"] == sig for f in ctx.failing):
         ctx.fail(sig, inp, data.get("expected"), "still fails (different symptom)")
